@@ -163,6 +163,24 @@ Proof.
 Qed.
 Print Assumptions C30_viewport.
 
+(* a VIEW that is rejected - by the corner checks or by the range check of its fill / border attribute (0..255),
+   both regenerated from view_, which the generator also checks to run before _set_view, which cannot raise - draws
+   nothing and leaves the viewport that was in force *)
+Theorem C30_view_rejected : forall st x0 y0 x1 y1 ab fill border,
+  g_text st = false ->
+  raster_view_checks (vp_maxw (g_vp st)) (vp_maxh (g_vp st)) x0 y0 x1 y1 <> Ok tt \/
+  raster_view_attr_checks (option_map fst fill) (option_map fst border) <> Ok tt ->
+  exec st (SView x0 y0 x1 y1 ab fill border) = (Err 5, st).
+Proof.
+  intros st x0 y0 x1 y1 ab fill border Ht H. unfold exec. rewrite Ht. cbn [stmt_guard raster_guard_view stmt_reqs].
+  destruct (view_checks_res (vp_maxw (g_vp st)) (vp_maxh (g_vp st)) x0 y0 x1 y1) as [Ec|Ec]; rewrite Ec; cbn [bind];
+    [|reflexivity].
+  destruct (view_attr_checks_res (option_map fst fill) (option_map fst border)) as [Ea|Ea]; rewrite Ea; cbn [bind];
+    [|reflexivity].
+  destruct H as [H|H]; congruence.
+Qed.
+Print Assumptions C30_view_rejected.
+
 (* the same without any side condition for every statement kind except the generic replay *)
 Theorem C30_viewport_all_kinds : forall st s,
   good_state st -> g_text st = false -> (forall g r e, s <> SReqs g r e) ->
